@@ -71,7 +71,7 @@ func verifNodes(root any) []verifNode {
 	return out
 }
 
-const verifNMutOps = 9
+const verifNMutOps = 11
 
 // verifForeignNamespace reports whether a description names a namespace other than the scope's own. References into
 // such a namespace stay unlinked until the receiver applies it (documented; ValidateReferences reports them), so only
@@ -127,6 +127,9 @@ func verifApplyMutation(n verifNode, op int) {
 	switch p := n.parent.(type) {
 	case map[string]any:
 		switch op {
+		case 9, 10:
+			p[""] = p[n.key]
+			delete(p, n.key)
 		case 0:
 			delete(p, n.key)
 		case 8: // rename
@@ -137,6 +140,18 @@ func verifApplyMutation(n verifNode, op int) {
 		}
 	case map[any]any:
 		switch op {
+		case 9, 10: // re-key an integer-keyed entry (unit multipliers, int one-of members, int enum values): 0 and a negative
+			v := p[n.akey]
+			delete(p, n.akey)
+			if _, ok := n.akey.(int64); ok {
+				if op == 9 {
+					p[int64(0)] = v
+				} else {
+					p[int64(-5)] = v
+				}
+			} else {
+				p[""] = v
+			}
 		case 0:
 			delete(p, n.akey)
 		case 8: // rename: another key of the same kind
@@ -151,7 +166,7 @@ func verifApplyMutation(n verifNode, op int) {
 			p[n.akey] = repl
 		}
 	case []any:
-		if op == 0 || op == 8 {
+		if op == 0 || op >= 8 {
 			p[n.idx] = nil
 		} else {
 			p[n.idx] = repl
@@ -203,10 +218,36 @@ func verifMutationBase(k int) *ScopeSchema {
 	}))
 }
 
-func verifExerciseScope(s *ScopeSchema) {
-	inputs := []any{map[string]any{}, nil, "x", int64(5), map[string]any{"s": "ab", "o": map[string]any{"d": "x", "v": int64(1)}, "next": map[string]any{}}, map[any]any{"o": map[string]any{"d": int64(1)}, "in": map[string]any{"z": 1.5}, "y": []any{int64(1)}},
-		map[string]any{"ls": []any{map[string]any{"z": 1.5}, "x"}, "ms": map[string]any{"k": map[string]any{"q": true}, "j": int64(1)}},
-		map[string]any{"dis": map[string]any{"v": int64(1)}}}
+// verifExerciseScope runs every operation on inputs that are valid for the unmutated base (so that, mutation
+// permitting, every part of the schema is actually reached: defaults, units, patterns, members, nested scopes) and
+// on a few that are not.
+func verifExerciseScope(s *ScopeSchema, base int) {
+	inputs := []any{map[string]any{}, nil, "x", int64(5)}
+	switch base {
+	case 0:
+		inputs = append(inputs,
+			map[string]any{"o": map[string]any{"d": "x", "v": int64(1)}, "next": map[string]any{"o": map[string]any{"d": "x"}}},
+			map[string]any{"o": map[string]any{"d": "x"}},
+			map[string]any{"o": map[string]any{"d": "nope"}, "next": "x"},
+		)
+	case 1:
+		inputs = append(inputs,
+			map[string]any{"s": "ab", "i": "5m", "e": "a", "l": []any{map[any]any{int64(1): true}}},
+			map[string]any{"i": int64(90)},
+			map[string]any{"s": "", "i": "x", "e": "b", "l": []any{int64(1)}},
+		)
+	case 2:
+		inputs = append(inputs,
+			map[any]any{"o": map[string]any{"d": int64(1)}, "in": map[string]any{"z": 1.5}, "y": []any{int64(1)}},
+			map[string]any{"o": map[string]any{"d": int64(2)}, "in": "x"},
+		)
+	case 3:
+		inputs = append(inputs,
+			map[string]any{"ls": []any{map[string]any{"z": 1.5}, "x"}, "ms": map[string]any{"k": map[string]any{"q": true}, "j": int64(1)}},
+			map[string]any{"ls": []any{}, "ms": map[string]any{}},
+			map[string]any{"dis": map[string]any{"v": int64(1)}},
+		)
+	}
 	for _, in := range inputs {
 		u, err := s.Unserialize(verifClone(in))
 		if err == nil {
@@ -219,10 +260,13 @@ func verifExerciseScope(s *ScopeSchema) {
 	}
 	_, _ = s.SelfSerialize()
 	_ = s.ValidateReferences()
+	// schema-mode ValidateCompatibility(s) is left to C15: a mutation can make any base recursive, and compatibility
+	// of recursive scopes is that property's known finding
 }
 
 func VerifC10_MutatedScope() {
-	base := verifMutationBase(nondetChoice("base", 4))
+	baseK := nondetChoice("base", 4)
+	base := verifMutationBase(baseK)
 	d, err := base.SelfSerialize()
 	verifAssert("C10/scope/base-describes-itself", err == nil)
 	if err != nil {
@@ -230,7 +274,7 @@ func VerifC10_MutatedScope() {
 	}
 	tree := verifClone(d)
 	nodes := verifNodes(tree)
-	nmax := 120
+	nmax := 400
 	if len(nodes) < nmax {
 		nmax = len(nodes)
 	}
@@ -248,7 +292,7 @@ func VerifC10_MutatedScope() {
 	}
 	if uerr == nil && s != nil && (!foreign || s.ValidateReferences() == nil) {
 		verifCover("C10/scope/accepted")
-		verifExerciseScope(s)
+		verifExerciseScope(s, baseK)
 	} else {
 		verifCover("C10/scope/rejected")
 	}
@@ -268,7 +312,8 @@ func VerifC10_MutatedPluginSchema() {
 		map[string]CallableSignal{
 			"sig": NewCallableSignal[*int, map[string]any]("sig", scope("Sig", NewBoolSchema()), nil, func(ctx context.Context, d *int, in map[string]any) {}),
 		},
-		nil, nil,
+		map[string]*SignalSchema{"emit": NewSignalSchema("emit", scope("Emit", NewBoolSchema()), nil)},
+		nil,
 		func() *int { return nil },
 		func(ctx context.Context, d *int, in map[string]any) (string, any) { return "ok", in },
 	)
@@ -279,7 +324,7 @@ func VerifC10_MutatedPluginSchema() {
 	}
 	tree := verifClone(d)
 	nodes := verifNodes(tree)
-	nmax := 140
+	nmax := 400
 	if len(nodes) < nmax {
 		nmax = len(nodes)
 	}
@@ -307,7 +352,7 @@ func VerifC10_MutatedPluginSchema() {
 				continue
 			}
 			if st.InputValue != nil {
-				u, e := st.InputValue.Unserialize(map[string]any{"v": int64(1)})
+				u, e := st.InputValue.Unserialize(map[string]any{"v": int64(1), "r": map[string]any{"v": int64(2)}})
 				if e == nil {
 					_ = st.InputValue.Validate(u)
 					_, _ = st.InputValue.Serialize(u)
@@ -315,12 +360,18 @@ func VerifC10_MutatedPluginSchema() {
 			}
 			for _, o := range st.OutputsValue {
 				if o != nil && o.SchemaValue != nil && (!foreign || o.ValidateReferences() == nil) {
-					_, _ = o.Unserialize(map[string]any{"v": int64(1)})
+					_, _ = o.Unserialize(map[string]any{"v": int64(1), "r": map[string]any{"v": int64(2)}})
 				}
 			}
 			for _, sg := range st.SignalHandlersValue {
 				if sg != nil && sg.DataSchemaValue != nil && (!foreign || sg.DataSchemaValue.ValidateReferences() == nil) {
-					_, _ = sg.DataSchemaValue.Unserialize(map[string]any{"v": true})
+					_, _ = sg.DataSchemaValue.Unserialize(map[string]any{"v": true, "r": map[string]any{"v": false}})
+				}
+			}
+			for _, sg := range st.SignalEmittersValue {
+				if sg != nil && sg.DataSchemaValue != nil && (!foreign || sg.DataSchemaValue.ValidateReferences() == nil) {
+					_, _ = sg.DataSchemaValue.Unserialize(map[string]any{"v": true, "r": map[string]any{"v": false}})
+					_ = sg.DataSchemaValue.Validate(map[string]any{"v": true, "r": map[string]any{"v": false}})
 				}
 			}
 		}
@@ -362,7 +413,7 @@ func VerifC10_Garbage() {
 	}
 	if s, err := UnserializeScope(verifClone(d)); err == nil && s != nil && s.ValidateReferences() == nil {
 		verifCover("C10/garbage/accepted")
-		verifExerciseScope(s)
+		verifExerciseScope(s, 0)
 	}
 	verifReach("C10/garbage/end")
 }
